@@ -1,5 +1,8 @@
 import CfdpVerif.Model.World
 import CfdpVerif.Lemmas.Monad
+import CfdpVerif.Lemmas.FreshDest
+import CfdpVerif.Lemmas.FreshSource
+import CfdpVerif.Props.C10
 /-!
 # C11 — transactions are isolated from earlier transactions and other handler instances
 
@@ -224,5 +227,189 @@ theorem C11_instances_independent (w w' : World) (op : Op) (r : Result) (m n : S
       cases hk : h.kind <;> simp [exec, hf, hk] at hex
       · exact Or.inr (Or.inr (Or.inr hex.1.symm))
       · refine Or.inr (Or.inr (Or.inl ⟨_, ?_, hex.1.symm⟩)); rfl
+
+
+/-! ## Every history: an idle handler has a new handler's parameter block -/
+
+section EveryHistory
+open Cfdp.C10
+
+/-- **Receiver, one operation**: the invariant of `Lemmas/FreshDest.lean` (that of C10 extended by
+"not busy ⇒ the parameter block is the default one") is kept by every operation, whether it returns or
+raises. -/
+theorem C11_dest_step (env : Dest.Env) (op : DOp) (s : Dest.DestSt) (hi : Dest.Fresh.DInv s) (ho : op.ok env) :
+    Dest.Fresh.DInv (op.run env s).2 := by
+  cases op with
+  | sm pkt =>
+    have := triple_elim _ _ _ _ (Dest.Fresh.stateMachine_spec env pkt ho) s hi
+    cases h : Dest.stateMachine env pkt s <;> simp [h, DOp.run, stateOf] at this ⊢
+    · exact this
+    · exact this.1
+  | get =>
+    have := triple_elim _ _ _ _ Dest.Fresh.getNextPacket_spec s hi
+    cases h : Dest.getNextPacket s <;> simp [h, DOp.run, stateOf] at this ⊢
+    · exact this
+    · exact this.1
+  | cancel t =>
+    have := triple_elim _ _ _ _ (Dest.Fresh.cancelRequest_spec env t) s hi
+    cases h : Dest.cancelRequest env t s <;> simp [h, DOp.run, stateOf] at this ⊢
+    · exact this
+    · exact this.1
+  | reset =>
+    have := triple_elim _ _ _ _ Dest.Fresh.reset_spec s hi
+    cases h : Dest.reset s <;> simp [h, DOp.run, stateOf] at this ⊢
+    · exact this
+    · exact this.1
+  | setHandler c f =>
+    simp only [DOp.run]
+    cases hset : setFaultHandler s.faults c f with
+    | none => exact hi
+    | some t =>
+      have hl := fun k => lookup_setFaultHandler s.faults t c f k hset
+      simp only [Dest.Fresh.DInv, Dest.Fresh.Core, Dest.Fresh.TimerOk, Dest.Fresh.FaultsOk] at hi ⊢
+      obtain ⟨⟨⟨f1, f2, f3, f4, f5, f6⟩, rest⟩, tm⟩ := hi
+      exact ⟨⟨⟨hl _ f1, hl _ f2, hl _ f3, hl _ f4, hl _ f5, hl _ f6⟩, rest⟩, tm⟩
+  | injectReject e =>
+    simp only [DOp.ok] at ho
+    simp only [DOp.run, Dest.Fresh.DInv, Dest.Fresh.Core, Dest.Fresh.TimerOk] at hi ⊢
+    obtain ⟨⟨f1, f2, f3, f4, f5, f6, f7, f8⟩, tm⟩ := hi
+    refine ⟨⟨f1, f2, f3, f4, f5, f6, f7, ?_⟩, tm⟩
+    intro e' he'
+    rcases List.mem_append.mp he' with h | h
+    · exact f8 e' h
+    · simp at h; subst h; exact ho
+
+/-- **Receiver, every history.**  From a new handler (or any state satisfying the invariant), after any
+sequence of `state_machine` calls with any PDU or none, packet retrievals, cancel requests, resets, fault
+table reconfigurations and refused filestore writes — transactions completed, cancelled, faulted,
+abandoned or reset in the middle —: whenever the handler is not busy, its parameter block is exactly a
+new handler's and its step is IDLE.  The next transaction therefore starts from the state a freshly
+constructed handler starts from (`C11_dest_start_fresh`). -/
+theorem C11_dest_idle_is_fresh_all_histories (env : Dest.Env) (s : Dest.DestSt) (hi : Dest.Fresh.DInv s)
+    (ops : List DOp) (hops : ∀ op ∈ ops, op.ok env) :
+    (runOps env s ops).state ≠ .busy → (runOps env s ops).p = {} ∧ (runOps env s ops).step = .IDLE := by
+  have hinv : Dest.Fresh.DInv (runOps env s ops) := by
+    unfold runOps
+    induction ops generalizing s with
+    | nil => exact hi
+    | cons op ops ih =>
+      simp only [List.foldl_cons]
+      exact ih _ (C11_dest_step env op s hi (hops op List.mem_cons_self)) (fun o ho => hops o (List.mem_cons_of_mem _ ho))
+  intro hnb
+  have := hinv.1.2.1 hnb
+  exact ⟨this.2.2, this.1⟩
+
+/-- a new receiver satisfies the invariant -/
+theorem C11_dest_invariant_init (faults : List (Nat × Nat)) (hf : Dest.Fresh.FaultsOk faults) :
+    Dest.Fresh.DInv { faults := faults } := by
+  simp [Dest.Fresh.DInv, Dest.Fresh.Core, Dest.Fresh.TimerOk, hf]
+
+/-- **Sender, one operation** -/
+theorem C11_source_step (env : Source.Env) (op : SOp) (s : Source.SrcSt) (hi : Source.Fresh.SInv s)
+    (ho : match op with
+      | .put r => Source.Fresh.ReqOk r
+      | .sm _ => Source.Fresh.SegFits env s
+      | _ => True) :
+    Source.Fresh.SInv (op.run env s).2 := by
+  cases op with
+  | put r =>
+    have := triple_elim _ _ _ _ (Source.Fresh.putRequest_spec env r ho) s hi
+    cases h : Source.putRequest env r s <;> simp [h, SOp.run, stateOf] at this ⊢
+    · exact this
+    · exact this.1
+  | sm pkt =>
+    have := triple_elim _ _ _ _ (Source.Fresh.stateMachine_spec env pkt) s ⟨hi, ho⟩
+    cases h : Source.stateMachine env pkt s <;> simp [h, SOp.run, stateOf] at this ⊢
+    · exact this
+    · exact this.1
+  | get =>
+    have := triple_elim _ _ _ _ Source.Fresh.getNextPacket_spec s hi
+    cases h : Source.getNextPacket s <;> simp [h, SOp.run, stateOf] at this ⊢
+    · exact this
+    · exact this.1
+  | cancel t =>
+    have := triple_elim _ _ _ _ (Source.Fresh.cancelRequest_spec env t) s hi
+    cases h : Source.cancelRequest env t s <;> simp [h, SOp.run, stateOf] at this ⊢
+    · exact this
+    · exact this.1
+  | reset =>
+    have := triple_elim _ _ _ _ Source.Fresh.reset_spec s hi
+    cases h : Source.reset s <;> simp [h, SOp.run, stateOf] at this ⊢
+    · exact this
+    · exact this.1
+  | setHandler c f =>
+    simp only [SOp.run]
+    cases hset : setFaultHandler s.faults c f with
+    | none => exact hi
+    | some t =>
+      have hl := fun k => lookup_setFaultHandler s.faults t c f k hset
+      simp only [Source.Fresh.SInv, Source.Fresh.FaultsOk, Source.Fresh.InStep] at hi ⊢
+      obtain ⟨⟨f1, f2⟩, rest⟩ := hi
+      exact ⟨⟨hl _ f1, hl _ f2⟩, rest⟩
+  | otherTransaction =>
+    simp only [SOp.run, Source.Fresh.SInv, Source.Fresh.InStep] at hi ⊢
+    exact hi
+
+/-- the hypotheses hold for each operation in the state it is applied to -/
+def SOpsOkF (env : Source.Env) : Source.SrcSt → List SOp → Prop
+  | _, [] => True
+  | s, op :: rest =>
+    (match op with
+      | .put r => Source.Fresh.ReqOk r
+      | .sm _ => Source.Fresh.SegFits env s
+      | _ => True) ∧ SOpsOkF env (op.run env s).2 rest
+
+/-- **Sender, every history**: whenever the sender is not busy — after transactions that completed, were
+cancelled, hit a limit, were abandoned or reset, after refused put requests, after transactions of other
+handlers sharing the provider — its parameter block is exactly a new handler's and its step is IDLE; an
+accepted put request therefore starts from what a freshly constructed handler starts from
+(`C11_source_put_forgets_history`). -/
+theorem C11_source_idle_is_fresh_all_histories (env : Source.Env) (s : Source.SrcSt) (hi : Source.Fresh.SInv s)
+    (ops : List SOp) (hops : SOpsOkF env s ops) :
+    (runSOps env s ops).state ≠ .busy → (runSOps env s ops).p = {} ∧ (runSOps env s ops).step = .IDLE := by
+  have hinv : Source.Fresh.SInv (runSOps env s ops) := by
+    unfold runSOps
+    induction ops generalizing s with
+    | nil => exact hi
+    | cons op ops ih =>
+      simp only [List.foldl_cons]
+      exact ih _ (C11_source_step env op s hi hops.1) hops.2
+  intro hnb
+  simp only [Source.Fresh.SInv] at hinv
+  obtain ⟨-, -, h3, -, -, -, -, -, -, -, -, h12⟩ := hinv
+  exact ⟨h12 hnb, (h3 hnb).1⟩
+
+/-- a new sender (8-, 16- or 32-bit provider) satisfies the invariant -/
+theorem C11_source_invariant_init (faults : List (Nat × Nat)) (pv : Source.SeqProv)
+    (hf : Source.Fresh.FaultsOk faults) (hb : pv.bits = 8 ∨ pv.bits = 16 ∨ pv.bits = 32) :
+    Source.Fresh.SInv { faults := faults, prov := pv } := by
+  simp [Source.Fresh.SInv, Source.Fresh.InStep, hf, hb]
+
+/-- **The follow-up request after any history.**  Whatever happened on the sender before — any history
+of operations ending with the handler idle —, an accepted put request yields exactly the state it yields
+on a handler with a new parameter block: state, step, remembered request, packets-ready counter and the
+whole parameter block are a function of the request and the configuration alone. -/
+theorem C11_source_followup_after_any_history (env : Source.Env) (s : Source.SrcSt) (hi : Source.Fresh.SInv s)
+    (ops : List SOp) (hops : SOpsOkF env s ops) (req : Source.PutReq) (rc : RemoteCfg)
+    (hidle : (runSOps env s ops).state = .idle)
+    (hsrc : ∀ src, req.src = some src → Fs.exists' (runSOps env s ops).fs src = true)
+    (hrc : lookupRemote env.cfg.remotes req.destId.val = some rc) :
+    Source.putRequest env req (runSOps env s ops) =
+      .ok true { runSOps env s ops with
+                  state := .busy, putReq := some req, numReady := 0,
+                  p := { ({} : Source.Params) with
+                           remoteCfg := some rc,
+                           conf := { Hdr.empty with dst := req.destId, mode := req.mode.getD rc.mode },
+                           closure := req.closure.getD rc.closure } } :=
+  C11_source_put_forgets_history env req _ rc hidle
+    (C11_source_idle_is_fresh_all_histories env s hi ops hops (by rw [hidle]; decide)).1 hsrc hrc
+
+/-- non-vacuity: the default tables satisfy the invariants' premises -/
+example : Source.Fresh.SInv ({} : Source.SrcSt) :=
+  C11_source_invariant_init _ _ (by simp only [Source.Fresh.FaultsOk]; decide) (by decide)
+example : Dest.Fresh.DInv ({} : Dest.DestSt) :=
+  C11_dest_invariant_init _ (by simp only [Dest.Fresh.FaultsOk]; decide)
+
+end EveryHistory
 
 end Cfdp.C11
